@@ -76,7 +76,8 @@ Definition Inv (c : cfg) (s : state) : Prop :=
   (has_timer s = true -> deadline s = armed_at s + cur_dur s /\ armed_at s <= now s) /\
   (run s = R_timer -> has_timer s = true /\ deadline s <= now s) /\
   (closed s = false -> 0 < pending s -> 0 < tokens s \/ run s = R_input \/ has_timer s = true) /\
-  (clo s = C_idle <-> closed s = false).
+  (clo s <> C_idle -> closed s = true) /\
+  (clo2 s <> C_idle -> closed s = true).
 
 Lemma window_len_0 c : cfg_ok c -> window_len c 0 = initial c.
 Proof. intros (Hi & Him & _). unfold window_len. cbn. lia. Qed.
@@ -108,12 +109,14 @@ Ltac step_inv H :=
   try (injection H as H; subst).
 
 (* closes the side conditions of [step_Inv] *)
-Ltac close IX IT IR IL IC :=
+Ltac close IX IT IR IL IC IC2 :=
   first
-  [ lia | discriminate | congruence | tauto | assumption
+  [ lia | discriminate | congruence | tauto | assumption | reflexivity
   | apply IX; assumption
   | apply IC; assumption
+  | apply IC2; assumption
   | apply IC; congruence
+  | apply IC2; congruence
   | apply IT; assumption
   | apply IR; assumption
   | match goal with H : has_timer _ = true |- _ => destruct (IT H); lia end
@@ -121,8 +124,6 @@ Ltac close IX IT IR IL IC :=
   | match goal with H1 : closed _ = false, H2 : 0 < pending _ |- _ =>
       destruct (IL H1 H2) as [L|[L|L]];
       first [ left; lia | right; left; congruence | right; right; assumption | congruence | lia ] end
-  | match goal with H : _ = C_idle |- _ => apply IC in H; congruence end
-  | match goal with H : closed _ = false |- _ => apply IC in H; congruence end
   | right; right; assumption
   | right; right; reflexivity
   | left; lia ].
@@ -131,53 +132,59 @@ Lemma step_Inv v c s e s' : cfg_ok c -> Inv c s -> step v c s e = Some s' -> Inv
 Proof.
   intros Hc HI H.
   pose proof (window_len_0 c Hc) as Hw0.
-  destruct HI as ((P1 & P2 & P3 & P4 & P5 & P6 & P7 & P8) & IA & IS & ID & IW & IB & IX & IT & IR & IL & IC).
+  destruct HI as ((P1 & P2 & P3 & P4 & P5 & P6 & P7 & P8) & IA & IS & ID & IW & IB & IX & IT & IR & IL & IC & IC2).
   destruct e; cbn [step] in H.
   - (* Add *)
-    step_inv H; boolprops; unfold Inv; cbn; repeat split; intros; close IX IT IR IL IC.
+    step_inv H; boolprops; unfold Inv; cbn; repeat split; intros; close IX IT IR IL IC IC2.
   - (* LoopTop *)
-    step_inv H; boolprops; unfold Inv, set_run; cbn; repeat split; intros; close IX IT IR IL IC.
+    step_inv H; boolprops; unfold Inv, set_run; cbn; repeat split; intros; close IX IT IR IL IC IC2.
   - (* TakeToken *)
-    step_inv H; boolprops; unfold Inv; cbn; repeat split; intros; close IX IT IR IL IC.
+    step_inv H; boolprops; unfold Inv; cbn; repeat split; intros; close IX IT IR IL IC IC2.
   - (* HandleToken *)
     step_inv H; boolprops. unfold handle_input.
     destruct (has_timer s) eqn:Eh; cbn [negb].
     + destruct (cap_reached c (pending s)) eqn:Ecap.
       * (* cap branch *)
         unfold fire, set_run; cbn. destruct (0 <? pending s) eqn:Ep;
-          unfold Inv; cbn; repeat split; intros; close IX IT IR IL IC.
+          unfold Inv; cbn; repeat split; intros; close IX IT IR IL IC IC2.
       * (* extend branch *)
         pose proof (next_backoff_law c s Hc P8 IW IB) as (L1 & L2).
         unfold handle_extend. destruct (next_backoff c s) as [b d] eqn:Enb. cbn [fst snd] in L1, L2.
-        unfold Inv; cbn. repeat split; intros; first [apply L2; assumption | close IX IT IR IL IC].
+        unfold Inv; cbn. repeat split; intros; first [apply L2; assumption | close IX IT IR IL IC IC2].
     + (* first branch *)
       specialize (IX eq_refl). rewrite IX in IW, IB.
       unfold handle_first, fire; cbn. destruct (0 <? pending s) eqn:Ep;
-        unfold Inv; cbn; repeat split; intros; close IX IT IR IL IC.
+        unfold Inv; cbn; repeat split; intros; close IX IT IR IL IC IC2.
   - (* TakeTimer *)
     step_inv H; boolprops; unfold timer_due in *; boolprops.
-    unfold Inv, set_run; cbn; repeat split; intros; close IX IT IR IL IC.
+    unfold Inv, set_run; cbn; repeat split; intros; close IX IT IR IL IC IC2.
   - (* TimerFire *)
     step_inv H; boolprops. unfold handle_timer, fire.
-    destruct (0 <? pending s) eqn:Ep; unfold Inv; cbn; repeat split; intros; close IX IT IR IL IC.
+    destruct (0 <? pending s) eqn:Ep; unfold Inv; cbn; repeat split; intros; close IX IT IR IL IC IC2.
   - (* RunExit *)
-    step_inv H; boolprops; unfold Inv, set_run; cbn; repeat split; intros; close IX IT IR IL IC.
+    step_inv H; boolprops; unfold Inv, set_run; cbn; repeat split; intros; close IX IT IR IL IC IC2.
   - (* TokenAbort *)
-    step_inv H; boolprops; unfold Inv; cbn; repeat split; intros; close IX IT IR IL IC.
+    step_inv H; boolprops; unfold Inv; cbn; repeat split; intros; close IX IT IR IL IC IC2.
   - (* SignalAbort *)
-    step_inv H; boolprops; unfold Inv; cbn; repeat split; intros; close IX IT IR IL IC.
+    step_inv H; boolprops; unfold Inv; cbn; repeat split; intros; close IX IT IR IL IC IC2.
   - (* CloseCall *)
-    step_inv H; boolprops; unfold Inv; cbn; repeat split; intros; close IX IT IR IL IC.
+    step_inv H; boolprops; unfold Inv; cbn; repeat split; intros; close IX IT IR IL IC IC2.
   - (* CloseLock *)
-    step_inv H; boolprops; unfold Inv, set_clo; cbn; repeat split; intros; close IX IT IR IL IC.
+    step_inv H; boolprops; unfold Inv, set_clo; cbn; repeat split; intros; close IX IT IR IL IC IC2.
   - (* CloseReturn *)
-    step_inv H; boolprops; unfold Inv, set_clo; cbn; repeat split; intros; close IX IT IR IL IC.
+    step_inv H; boolprops; unfold Inv, set_clo; cbn; repeat split; intros; close IX IT IR IL IC IC2.
+  - (* Close2Call *)
+    step_inv H; boolprops; unfold Inv; cbn; repeat split; intros; close IX IT IR IL IC IC2.
+  - (* Close2Lock *)
+    step_inv H; boolprops; unfold Inv, set_clo2; cbn; repeat split; intros; close IX IT IR IL IC IC2.
+  - (* Close2Return *)
+    step_inv H; boolprops; unfold Inv, set_clo2; cbn; repeat split; intros; close IX IT IR IL IC IC2.
   - (* Advance *)
-    step_inv H; boolprops; unfold Inv; cbn; repeat split; intros; close IX IT IR IL IC.
+    step_inv H; boolprops; unfold Inv; cbn; repeat split; intros; close IX IT IR IL IC IC2.
   - (* Deliver *)
-    step_inv H; boolprops; unfold Inv; cbn; repeat split; intros; close IX IT IR IL IC.
+    step_inv H; boolprops; unfold Inv; cbn; repeat split; intros; close IX IT IR IL IC IC2.
   - (* CtxCancel *)
-    step_inv H; boolprops; unfold Inv; cbn; repeat split; intros; close IX IT IR IL IC.
+    step_inv H; boolprops; unfold Inv; cbn; repeat split; intros; close IX IT IR IL IC IC2.
 Qed.
 
 Lemma exec_Inv v c es : forall s s', cfg_ok c -> Inv c s -> exec v c s es = Some s' -> Inv c s'.
@@ -390,25 +397,30 @@ Qed.
 (* ------------------------------------------------------------------------------------- *)
 (* C09_close_waits                                                                          *)
 
-Theorem close_waits v c s s' : cfg_ok c -> reachable v c s ->
-  step v c s CloseReturn = Some s' ->
+Definition is_close_return (e : event) : bool :=
+  match e with CloseReturn | Close2Return => true | _ => false end.
+
+(* whichever Close call it is *)
+Theorem close_waits v c s e s' : cfg_ok c -> reachable v c s ->
+  is_close_return e = true -> step v c s e = Some s' ->
   tokens s = 0 /\ inflight s = 0 /\ run s = R_exited /\ closed s = true.
 Proof.
-  intros Hc Hr H.
-  destruct (reachable_Inv v c s Hc Hr) as ((_ & P2 & P3 & _) & _ & _ & _ & _ & _ & _ & _ & _ & _ & IC).
-  cbn [step] in H. step_inv H. boolprops. unfold wg, run_alive in *.
-  destruct (rpc_eqb (run s) R_exited) eqn:Er.
-  - apply rpc_eqb_eq in Er. repeat split; try lia; try assumption.
-    destruct (closed s) eqn:Ecl; [reflexivity|]. exfalso.
-    assert (clo s = C_idle) by (apply IC; reflexivity). congruence.
-  - lia.
+  intros Hc Hr He H.
+  destruct (reachable_Inv v c s Hc Hr) as ((_ & P2 & P3 & _) & _ & _ & _ & _ & _ & _ & _ & _ & _ & IC & IC2).
+  destruct e; try discriminate He; cbn [step] in H; step_inv H; boolprops; unfold wg, run_alive in *;
+    destruct (rpc_eqb (run s) R_exited) eqn:Er; try lia;
+    apply rpc_eqb_eq in Er; repeat split; try lia; try assumption;
+    first [apply IC; congruence | apply IC2; congruence].
 Qed.
 
-(* Fixed: after Close has returned no helper goroutine exists, now or later *)
+(* Fixed: after a Close call has returned no helper goroutine exists, now or later *)
 Definition InvF (s : state) : Prop :=
-  clo s = C_returned -> tokens s = 0 /\ inflight s = 0 /\ run s = R_exited.
+  clo s = C_returned \/ clo2 s = C_returned -> tokens s = 0 /\ inflight s = 0 /\ run s = R_exited.
 
 Lemma clo_fire s : clo (fire s) = clo s.
+Proof. unfold fire. destruct (0 <? pending s); reflexivity. Qed.
+
+Lemma clo2_fire s : clo2 (fire s) = clo2 s.
 Proof. unfold fire. destruct (0 <? pending s); reflexivity. Qed.
 
 Lemma clo_handle_input c s : clo (handle_input c s) = clo s.
@@ -419,34 +431,53 @@ Proof.
   destruct (next_backoff c s); reflexivity.
 Qed.
 
+Lemma clo2_handle_input c s : clo2 (handle_input c s) = clo2 s.
+Proof.
+  unfold handle_input, handle_first, handle_extend.
+  destruct (negb (has_timer s)); [rewrite clo2_fire; reflexivity|].
+  destruct (cap_reached c (pending s)); [rewrite clo2_fire; reflexivity|].
+  destruct (next_backoff c s); reflexivity.
+Qed.
+
 Lemma clo_handle_timer c s : clo (handle_timer c s) = clo s.
 Proof. unfold handle_timer. cbn. apply clo_fire. Qed.
+
+Lemma clo2_handle_timer c s : clo2 (handle_timer c s) = clo2 s.
+Proof. unfold handle_timer. cbn. apply clo2_fire. Qed.
 
 Lemma step_InvF c s e s' : cfg_ok c -> Inv c s -> InvF s -> step Fixed c s e = Some s' -> InvF s'.
 Proof.
   intros Hc HI HF H.
-  destruct HI as ((_ & P2 & P3 & _) & _ & _ & _ & _ & _ & _ & _ & _ & _ & IC).
+  destruct HI as ((_ & P2 & P3 & _) & _ & _ & _ & _ & _ & _ & _ & _ & _ & IC & IC2).
   unfold InvF in *.
-  destruct e; cbn [step] in H; step_inv H; boolprops; unfold set_run, set_clo; cbn; intro Hcl.
-  all: try (rewrite clo_handle_input in Hcl; destruct (HF Hcl) as (A & B & C); congruence).
-  all: try (rewrite clo_handle_timer in Hcl; destruct (HF Hcl) as (A & B & C); congruence).
-  all: try (rewrite clo_fire in Hcl; destruct (HF Hcl) as (A & B & C); congruence).
-  all: try discriminate Hcl.
-  all: try (assert (Hcl' : clo s = C_returned) by exact Hcl; destruct (HF Hcl') as (A & B & C)).
+  destruct e; cbn [step] in H; step_inv H; boolprops; unfold set_run, set_clo, set_clo2; cbn; intro Hcl.
+  all: rewrite ?clo_handle_input, ?clo_handle_timer, ?clo_fire,
+               ?clo2_handle_input, ?clo2_handle_timer, ?clo2_fire in Hcl.
+  (* a step of a closer itself *)
+  all: try (assert (Hcl' : clo s = C_returned \/ clo2 s = C_returned)
+              by (destruct Hcl as [Hcl|Hcl]; [first [left; exact Hcl | discriminate Hcl | congruence]
+                                             | first [right; exact Hcl | discriminate Hcl | congruence]]);
+            destruct (HF Hcl') as (A & B & C)).
   all: try solve [repeat split; first [lia | congruence | assumption]].
   all: try solve [exfalso; congruence].
   all: try solve [exfalso; lia].
   - (* Add, not closed *)
     exfalso. cbn in *. destruct (closed s) eqn:Ecl; [discriminate|].
-    assert (clo s = C_idle) by (apply IC; reflexivity). congruence.
+    destruct Hcl' as [Hcl'|Hcl']; [assert (false = true) by (apply IC; congruence)
+                                  | assert (false = true) by (apply IC2; congruence)]; discriminate.
   - (* CloseReturn *)
+    unfold wg, run_alive in *. destruct (rpc_eqb (run s) R_exited) eqn:Er.
+    + apply rpc_eqb_eq in Er. repeat split; first [lia | assumption].
+    + exfalso; lia.
+  - (* Close2Return *)
     unfold wg, run_alive in *. destruct (rpc_eqb (run s) R_exited) eqn:Er.
     + apply rpc_eqb_eq in Er. repeat split; first [lia | assumption].
     + exfalso; lia.
 Qed.
 
 Theorem close_returned_quiet c s : cfg_ok c -> reachable Fixed c s ->
-  clo s = C_returned -> tokens s = 0 /\ inflight s = 0 /\ run s = R_exited.
+  clo s = C_returned \/ clo2 s = C_returned ->
+  tokens s = 0 /\ inflight s = 0 /\ run s = R_exited.
 Proof.
   intros Hc [es H]. revert H.
   assert (G : forall es s0, Inv c s0 -> InvF s0 -> exec Fixed c s0 es = Some s -> InvF s).
@@ -455,5 +486,5 @@ Proof.
     - destruct (step Fixed c s0 e) as [s1|] eqn:E; [|discriminate].
       eapply IH; [eapply step_Inv; eassumption | eapply step_InvF; eassumption | assumption]. }
   intro H. apply (G es (init c)); [apply Inv_init; assumption | | assumption].
-  unfold InvF, init; cbn. discriminate.
+  unfold InvF, init; cbn. intros [X|X]; discriminate.
 Qed.
